@@ -217,8 +217,13 @@ def interface(ds, name, nmeth=None, rich=True, props=True):
     n = (1 + ds.choose(3)) if nmeth is None else nmeth
     names = ds.shuffle(METHOD_NAMES)[:n]
     for mn in sorted(names):
-        si = ds.pick(SIMPLE_SIGS) if rich else ds.pick(SIMPLE_SIGS[:6])
-        so = ds.pick(SIMPLE_SIGS) if rich else ds.pick(SIMPLE_SIGS[:6])
+        if rich:
+            # mostly everyday signatures, sometimes anything the type grammar allows
+            si = signature(ds, 3, 2) if ds.flag(0.3) else ds.pick(SIMPLE_SIGS)
+            so = signature(ds, 2, 2) if ds.flag(0.3) else ds.pick(SIMPLE_SIGS)
+        else:
+            si = ds.pick(SIMPLE_SIGS[:6])
+            so = ds.pick(SIMPLE_SIGS[:6])
         d.methods.append((mn, si, so))
     for sn in SIGNAL_NAMES[:ds.choose(3)]:
         d.signals.append((sn, ds.pick(SIMPLE_SIGS[:8])))
